@@ -855,6 +855,13 @@ def mk_call(fn, args=(), kwargs=()):
         ga = args[0].single_atom()
         if ga is not None and ga.kind == 'comp' and ga.args[0] == 'gen':
             args = [Term.of(Atom('comp', 'list', *ga.args[1:]))] + list(args[1:])
+    if fn in ('any', 'all') and len(args) == 1 and not kwargs:
+        la = args[0].single_atom()
+        if la is not None and la.kind in ('list', 'tuple'):
+            conds = [truthy(x) for x in la.args]          # any([a, b]) == a or b
+            return mk_or(conds) if fn == 'any' else mk_and(conds)
+        if la is not None and la.kind == 'ite':
+            return mk_ite(la.args[0], mk_call(fn, [la.args[1]]), mk_call(fn, [la.args[2]]))
     if fn in ('min', 'max') and len(args) == 1 and not kwargs:
         la = args[0].single_atom()
         if la is not None and la.kind in ('list', 'tuple') and la.args:
@@ -1131,6 +1138,12 @@ def mk_sub(base, idx):
                 if a0 is not None and a0 >= 0 and a0.denominator == 1 and idx.single_atom() is not None and \
                         idx.single_atom().kind == 'idx':
                     return mk_sub(at.args[0], sl.args[0] + idx)
+            if sl is not None and sl.kind == 'slice' and _isnone(sl.args[2]):
+                # (X[a:b])[i] == X[a + i]   for constants 0 <= a, 0 <= i < b - a
+                a0, b0, i0 = sl.args[0].const(), (None if _isnone(sl.args[1]) else sl.args[1].const()), idx.const()
+                if a0 is not None and i0 is not None and a0 >= 0 and i0 >= 0 and a0.denominator == 1 and i0.denominator == 1 \
+                        and (_isnone(sl.args[1]) or (b0 is not None and i0 < b0 - a0)):
+                    return mk_sub(at.args[0], Term.num(a0 + i0))
         if at.kind == 'call' and at.args[0] == 'mut.append' and len(at.args[1]) == 2:
             # (L + [v])[len(L)] is v ; (L + [v])[k] for a constant k >= 0 below a literal L's length is L[k]
             L, v = at.args[1]
@@ -1636,6 +1649,8 @@ def compare(a, b, max_conds=8):
                 # satisfiability / validity of one boolean combination: its own truth table
                 conds.update(pa)
                 conds.update(pb)
+                conds.pop(TRUE.key, None)
+                conds.pop(FALSE.key, None)
         return conds
 
     def rec(x, y, asg):
